@@ -14,7 +14,7 @@ sed -i "s#path = \"/repo\"#path = \"$S/repo\"#" "$S/harness/Cargo.toml"
 rm -rf "$S/out"; mkdir -p "$S/out"
 cp /verif/known_findings.json "$S/out/" 2>/dev/null
 mkdir -p "$S/out/replay"; for d in /verif/replay/*/; do n=$(basename "$d"); [ -d "$d/known" ] && mkdir -p "$S/out/replay/$n" && cp -r "$d/known" "$S/out/replay/$n/"; done
-profile=release; [ "$id" = "C10" ] && profile=ubcheck; case "$id" in C01|C02|C20) profile=checked;; esac
+profile=release; [ "$id" = "C10" ] && profile=ubcheck; case "$id" in C01|C02) profile=checked;; esac
 ( cd "$S/harness" && CARGO_TARGET_DIR="$S/target" cargo build --profile "$profile" --offline --bin "$bin" 2>&1 | grep -E "^error" -A10 | head -30 )
 [ -x "$S/target/$profile/$bin" ] || { echo "BUILD FAILED"; exit 3; }
 ICYV_REPO="$S/repo" ICYV_VERIF="$S/out" "$S/target/$profile/$bin" "$tier" 2>&1 | grep -E "^VIOLATION|key=|^\[|KNOWN" | head -20
